@@ -49,15 +49,16 @@ func (w *writerA) noUseAfter() {
 	}
 	// ncopy / flushFrame are only called from methods that verified w.err == nil (or from WriteMessage's fast path right after beginMessage)
 	for _, callee := range []*ssa.Function{w.ncopy, w.flush} {
+		hosts := map[*ssa.Function]bool{}
 		for _, g := range c.P.FuncList {
-			calls := false
-			for _, b := range g.Blocks {
-				for _, in := range b.Instrs {
-					if ci, ok := in.(ssa.CallInstruction); ok && ci.Common().StaticCallee() == callee {
-						calls = true
-					}
+			if callsDirectly(g, callee) {
+				for _, h := range c.hostsOf(g) { // an extracted helper is judged inside its callers
+					hosts[h] = true
 				}
 			}
+		}
+		for _, g := range c.P.FuncList {
+			calls := hosts[g]
 			if !calls {
 				continue
 			}
